@@ -1,7 +1,7 @@
 """F and V rules: value-file lifecycle."""
 import ast
 
-from .framework import rule, Ob, fmt_trace, sql_events, call_events, values_in
+from .framework import rule, Ob, fmt_trace, sql_events, call_events, values_in, role_of, within
 from .model import AnalysisError, walk_shallow, dotted
 from .values import V
 from .rules_lock import core_entries, _is_row_write, _stmt_sig
@@ -305,7 +305,7 @@ def f4(ctx):
                 info = sites.setdefault(k, {'f': f, 'ev': ev, 'ok': True, 'wit': None, 'why': '', 'n': 0,
                                             'sig': _stmt_sig(st)})
                 info['n'] += 1
-                if ev.fn.qual in F4_EXEMPT:
+                if role_of(ev, F4_EXEMPT) is not None:
                     continue
                 inst = ev.d['inst']
                 sel, fv = _affected_filename(tr, ev)
@@ -338,8 +338,8 @@ def f4(ctx):
         base = '%s/%s' % (info['f'].qual.replace('core.', ''), info['sig'])
         ordinal[base] = ordinal.get(base, 0) + 1
         key = base if ordinal[base] == 1 else '%s#%d' % (base, ordinal[base])
-        ex = info['ev'].fn.qual in F4_EXEMPT
-        obs.append(Ob('F4', key, info['ok'], ('exempt: ' + F4_EXEMPT[info['ev'].fn.qual]) if ex else info['why'],
+        ex = role_of(info['ev'], F4_EXEMPT) is not None
+        obs.append(Ob('F4', key, info['ok'], ('exempt: ' + role_of(info['ev'], F4_EXEMPT)) if ex else info['why'],
                       info['ev'].fn.loc(info['ev'].node), info['wit'], nontrivial=not ex))
     return obs
 
@@ -375,7 +375,7 @@ def _classify_removal(f, ev, p):
         return 'exempt', True, True, ''
     tr = p.trace
     arg = ev.d['args'][0] if ev.d.get('args') else None
-    if ev.fn.qual == 'core.Cache.check':
+    if within(ev, 'core.Cache.check'):
         dom = any(e.kind == 'TEST' and e.d['val'].k == 'param' and e.d['val'].a[0] == 'fix' and e.d['truth']
                   for e in tr[:ev.seq])
         return 'check-repair', dom, dom, 'not dominated by `fix`'
@@ -510,7 +510,7 @@ def f6(ctx):
             if not calls:
                 continue
             for p in ctx.paths(f, 'default'):
-                sels = [e for e in sql_events(p.trace, 'select', 'Cache') if e.fn is bd]
+                sels = [e for e in sql_events(p.trace, 'select', 'Cache') if within(e, bd.qual)]
                 if not sels:
                     continue
                 cols = sels[0].d['stmt'].colnames
@@ -707,7 +707,7 @@ def f10(ctx):
                 if tgt in ('count', 'size', '?'):
                     dom = any(e.kind == 'TEST' and e.d['val'].k == 'param' and e.d['val'].a[0] == 'fix'
                               and e.d['truth'] for e in p.trace[:ev.seq])
-                    if not (ev.fn.qual == 'core.Cache.check' and dom):
+                    if not (within(ev, 'core.Cache.check') and dom):
                         bad.append((ev.fn, ev.node))
     obs.append(Ob('F10', 'no-direct-assignment', not bad,
                   'Settings.count/size assigned directly outside check(fix=True): %s' %
